@@ -26,6 +26,8 @@ class Tracker(CmdMixin, MboxMixin, SweepMixin, Monitor):
         self.mb = {}                       # (app, mid) -> MbInc (current)
         self.np = {}                       # (app, name) -> NpInc (current)
         self.msgs = defaultdict(list)      # (app, mid) -> [(side, phase, body, id, rx)]
+        self.lost_np = {}                  # (app, name) -> (mailbox id, holders) of a nameplate that vanished wrongly
+        self._np_before = {}
         self.retired_np = {}               # (app, name) -> mailbox id of an incarnation that ended by its last release
         self.mid_owner = {}                # mailbox id -> (app, name, n) nameplate incarnation it was answered for
         self.inc_counter = 0
@@ -139,6 +141,7 @@ class Tracker(CmdMixin, MboxMixin, SweepMixin, Monitor):
         if not self.enabled:
             return
         nv0 = len(self.violations)
+        self._np_before = dict(self.np)
         d = diff_tables(st.before, st.after)
         ud = diff_tables(st.ubefore, st.uafter) if self.usage_on else []
         st.extra["diff"] = d
@@ -184,8 +187,23 @@ class Tracker(CmdMixin, MboxMixin, SweepMixin, Monitor):
             self._on_lifecycle(world, st, d, ud)
         self._structural(world, st)
         self._resync(world, st)
+        # when did the last subscriber of each mailbox leave (C12: a client may be away for
+        # at least expiration minus one sweep period after having been connected)
+        subscribed = set(id(cm.sub) for cm in self.cm.values() if cm.alive and cm.sub is not None)
+        for m in self.mb.values():
+            now_sub = id(m) in subscribed
+            if getattr(m, "was_subscribed", False) and not now_sub:
+                m.t_unsub = st.t
+            m.was_subscribed = now_sub
         self._shape(world, st)
         if len(self.violations) > nv0:
+            # a nameplate that vanished in a step that violated something, while sides still held it, is still
+            # "alive" as far as C03 is concerned: a holder's repeated claim must be told the same mailbox id
+            for (t, k, old, new) in d:
+                if t == "nameplates" and new is None:
+                    n = self._np_before.get((old["app_id"], old["name"]))
+                    if n is not None and n.holders() and not n.unknown_origin:
+                        self.lost_np[(old["app_id"], old["name"])] = (n.mid, set(n.holders()))
             # whatever went wrong, the objects alive now are no longer judged by the lifetime oracles
             for m in self.mb.values():
                 m.taint.add("contaminated")
